@@ -282,11 +282,10 @@ Proof.
   - now rewrite (IH path d p Hps Hin Hm).
 Qed.
 
-(** Without negations, "nearest decision wins" (the reference implementation's walk) and git's own top-down
-    reading coincide. *)
-Theorem gi_git_agree : forall ps path d, no_neg ps = true -> gi_ignored ps path d = gi_git ps path d.
+(** Without negations the [ignore] crate's walk (nearest decision wins) is gitignore's reading. *)
+Theorem gi_nearest_agree : forall ps path d, no_neg ps = true -> gi_nearest ps path d = gi_ignored ps path d.
 Proof.
-  intros ps path d H. unfold gi_ignored, gi_git. generalize (rev path) as rp. intro rp. revert d.
+  intros ps path d H. unfold gi_ignored, gi_nearest. generalize (rev path) as rp. intro rp. revert d.
   induction rp as [|c rp IH]; intro d; [reflexivity|].
   cbn [ig_up git_up]. pose proof (decide_no_neg ps (rev (c :: rp)) d H) as Hw.
   destruct (decide ps (rev (c :: rp)) d); cbn; [apply IH | reflexivity | easy].
@@ -315,28 +314,54 @@ Proof.
   - rewrite (IH r true); [apply orb_true_r | easy | exact Hr].
 Qed.
 
-(** The README sentence: a line "d/" ignores ALL files in ANY directory named d (no negations involved). *)
-Theorem gi_dir_pattern : forall ps d pre post isd,
-  no_neg ps = true -> In (dir_pat d) ps -> post <> [] ->
-  gi_ignored ps (pre ++ d :: post) isd = true.
+(** a directory decided "ignore" takes everything below it with it, negations or not *)
+Theorem gi_level : forall ps pre d post isd,
+  decide ps (pre ++ [d]) true = DIgnore -> post <> [] -> gi_ignored ps (pre ++ d :: post) isd = true.
 Proof.
-  intros ps d pre post isd Hn Hin Hpost. rewrite (gi_git_agree _ _ _ Hn). unfold gi_git.
+  intros ps pre d post isd Hd Hpost. unfold gi_ignored.
   rewrite rev_app_distr. cbn [rev]. rewrite <- app_assoc. cbn [app].
   apply git_up_app.
   - intro E. apply Hpost. rewrite <- (rev_involutive post), E. reflexivity.
   - cbn [git_up]. replace (rev (d :: rev pre)) with (pre ++ [d]) by (cbn; now rewrite rev_involutive).
-    rewrite (decide_match_no_neg ps (pre ++ [d]) true (dir_pat d) Hn Hin); [reflexivity|].
-    unfold pat_matches. cbn. apply pmatch_dstar_last, cmatch_lit.
+    now rewrite Hd.
 Qed.
 
-(** An unanchored glob line such as "*.hql" ignores the matching files at any depth. *)
-Theorem gi_glob_pattern : forall ps g pre name isd,
-  no_neg ps = true -> In {| p_neg := false; p_dir := false; p_comps := [CDStar; CGlob g] |} ps ->
-  cmatch g name = true -> gi_ignored ps (pre ++ [name]) isd = true.
+(** a path decided "ignore" is ignored *)
+Theorem gi_leaf : forall ps pre name isd,
+  decide ps (pre ++ [name]) isd = DIgnore -> gi_ignored ps (pre ++ [name]) isd = true.
 Proof.
-  intros ps g pre name isd Hn Hin Hm. unfold gi_ignored. rewrite rev_app_distr. change (rev [name]) with [name]. cbn [app ig_up].
+  intros ps pre name isd Hd. unfold gi_ignored. rewrite rev_app_distr. change (rev [name]) with [name]. cbn [app git_up].
   replace (rev (name :: rev pre)) with (pre ++ [name]) by (cbn; now rewrite rev_involutive).
-  rewrite (decide_match_no_neg ps (pre ++ [name]) isd _ Hn Hin); [reflexivity|].
+  now rewrite Hd.
+Qed.
+
+(** last match wins: a non-negated line that matches and is followed by no negation line decides "ignore" *)
+Lemma decide_last : forall ps1 p ps2 path d,
+  no_neg ps2 = true -> p_neg p = false -> pat_matches p path d = true -> decide (ps1 ++ p :: ps2) path d = DIgnore.
+Proof.
+  intros ps1 p ps2 path d Hn Hp Hm. induction ps1 as [|q ps1 IH]; cbn [app decide].
+  - pose proof (decide_no_neg ps2 path d Hn) as Hw.
+    destruct (decide ps2 path d); [now rewrite Hm, Hp | reflexivity | easy].
+  - now rewrite IH.
+Qed.
+
+(** The README sentence: a line "d/" ignores ALL files in ANY directory named d — whatever precedes it,
+    provided no negation line follows it. *)
+Theorem gi_dir_pattern : forall ps1 ps2 d pre post isd,
+  no_neg ps2 = true -> post <> [] ->
+  gi_ignored (ps1 ++ dir_pat d :: ps2) (pre ++ d :: post) isd = true.
+Proof.
+  intros ps1 ps2 d pre post isd Hn Hpost. apply gi_level; [|exact Hpost].
+  apply decide_last; [exact Hn | reflexivity|].
+  unfold pat_matches. cbn. apply pmatch_dstar_last, cmatch_lit.
+Qed.
+
+(** An unanchored glob line such as "*.hql" ignores the matching files at any depth (no negation line after it). *)
+Theorem gi_glob_pattern : forall ps1 ps2 g pre name isd,
+  no_neg ps2 = true -> cmatch g name = true ->
+  gi_ignored (ps1 ++ {| p_neg := false; p_dir := false; p_comps := [CDStar; CGlob g] |} :: ps2) (pre ++ [name]) isd = true.
+Proof.
+  intros ps1 ps2 g pre name isd Hn Hm. apply gi_leaf. apply decide_last; [exact Hn | reflexivity|].
   unfold pat_matches. cbn [p_dir p_comps negb orb andb]. now apply pmatch_dstar_last.
 Qed.
 
@@ -345,7 +370,7 @@ Theorem gi_unmatched : forall ps path d,
   (forall q dq, decide ps q dq = DNone) -> gi_ignored ps path d = false.
 Proof.
   intros ps path d H. unfold gi_ignored. generalize (rev path). intro rp. revert d.
-  induction rp as [|c rp IH]; intro d; [reflexivity|]. cbn [ig_up]. rewrite H. apply IH.
+  induction rp as [|c rp IH]; intro d; [reflexivity|]. cbn [git_up]. rewrite H. apply IH.
 Qed.
 
 (* ------------------------------------------------------------------ the law on the text of the ignore file *)
@@ -416,22 +441,19 @@ Proof.
   rewrite E5. reflexivity.
 Qed.
 
-Lemma parse_lines_In : forall ls l p, In l ls -> parse_line l = Some p -> In p (parse_lines ls).
+Lemma parse_lines_app : forall a b, parse_lines (a ++ b) = parse_lines a ++ parse_lines b.
 Proof.
-  induction ls as [|x ls IH]; cbn; intros l p Hin Hp; [easy|].
-  destruct Hin as [->|Hin].
-  - rewrite Hp. now left.
-  - destruct (parse_line x); [right|]; eapply IH; eauto.
+  induction a as [|x a IH]; intro b; cbn; [reflexivity|]. destruct (parse_line x); cbn; now rewrite IH.
 Qed.
 
-(** README, on the file's text: if the ignore file has a line "d/" (d a plain name) and no negation lines, every
-    path with a proper ancestor directory named d is ignored. *)
-Theorem gi_dir_line : forall lines d pre post isd,
-  no_neg (parse_lines lines) = true -> In (d ++ [47]) lines -> plain_name d = true -> post <> [] ->
-  gi_ignored (parse_lines lines) (pre ++ d :: post) isd = true.
+(** README, on the file's text: a line "d/" (d a plain name) with no negation line after it ignores every path
+    that has a proper ancestor directory named d. *)
+Theorem gi_dir_line : forall l1 l2 d pre post isd,
+  plain_name d = true -> no_neg (parse_lines l2) = true -> post <> [] ->
+  gi_ignored (parse_lines (l1 ++ (d ++ [47]) :: l2)) (pre ++ d :: post) isd = true.
 Proof.
-  intros lines d pre post isd Hn Hin Hd Hpost. apply gi_dir_pattern; auto.
-  eapply parse_lines_In; [exact Hin | now apply parse_dir_line].
+  intros l1 l2 d pre post isd Hd Hn Hpost. rewrite parse_lines_app. cbn [parse_lines].
+  rewrite (parse_dir_line d Hd). now apply gi_dir_pattern.
 Qed.
 
 (* ------------------------------------------------------------------ non-vacuity and the code before the repairs *)
@@ -459,14 +481,21 @@ Example readme_parses : parse_lines readme_lines =
 Proof. vm_compute. reflexivity. Qed.
 
 Example gi_dir_pattern_nonvacuous :
-  no_neg (parse_lines readme_lines) = true /\ In (dir_pat n_temp) (parse_lines readme_lines) /\
+  parse_lines readme_lines = [hd (dir_pat []) (parse_lines readme_lines)] ++ dir_pat n_temp :: [] /\ no_neg [] = true /\
   gi_ignored (parse_lines readme_lines) ([n_sub] ++ n_temp :: [n_bsql]) false = true /\
   gi_ignored (parse_lines readme_lines) [n_asql] false = false.
 Proof. vm_compute. repeat split; auto. Qed.
 
 Example gi_dir_line_nonvacuous :
-  no_neg (parse_lines readme_lines) = true /\ In (n_temp ++ [47]) readme_lines /\ plain_name n_temp = true.
-Proof. vm_compute. repeat split; auto 10. Qed.
+  readme_lines = firstn 4 readme_lines ++ (n_temp ++ [47]) :: [] /\ plain_name n_temp = true /\ no_neg (parse_lines []) = true.
+Proof. vm_compute. repeat split; reflexivity. Qed.
+
+(** where the two walks differ: "temp/" then "!b.sql" — gitignore keeps temp/b.sql ignored *)
+Lemma nearest_differs :
+  exists ps path, gi_ignored ps path false = true /\ gi_nearest ps path false = false.
+Proof.
+  exists (parse_lines [[116;101;109;112;47]; [33;98;46;115;113;108]]), [n_temp; n_bsql]. vm_compute. split; reflexivity.
+Qed.
 
 Example linted_readme :
   linted readme_tree [ext_sql; ext_hql] (parse_lines readme_lines) [ {| a_pfx := Dot; a_path := [] |} ]
@@ -479,7 +508,7 @@ Example linted_overlap :
   = Some [(Rel, [n_asql]); (Rel, [n_sub; n_temp; n_bsql]); (Rel, [n_temp; n_bsql]); (Rel, [n_sub; n_xhql])].
 Proof. vm_compute. reflexivity. Qed.
 
-(** Before 072ec13: "temp/" did not exclude temp/b.sql (the pattern list was matched against the file only). *)
+(** Before 8726e28: "temp/" did not exclude temp/b.sql (the pattern list was matched against the file only). *)
 Lemma legacy_refuted_dir_pattern :
   exists t exts lines args outs p,
     linted_legacy t exts (parse_lines lines) args = Some outs /\ In p (map snd outs) /\
@@ -489,7 +518,7 @@ Proof.
   eexists. exists [n_temp; n_bsql]. split; [vm_compute; reflexivity|]. split; [cbn; auto | vm_compute; reflexivity].
 Qed.
 
-(** Before 286403b: a file reached through two arguments was processed twice. *)
+(** Before f56e47c: a file reached through two arguments was processed twice. *)
 Lemma legacy_refuted_once :
   exists t exts args outs, linted_legacy t exts [] args = Some outs /\ ~ NoDup (map snd outs).
 Proof.
@@ -498,7 +527,7 @@ Proof.
   eexists. split; [vm_compute; reflexivity|]. cbn. intro H. inversion H as [|x l Hn Hd]. apply Hn. now left.
 Qed.
 
-(** Before 4625a80: a directory named like a sql file was a candidate and the run aborted. *)
+(** Before a596558: a directory named like a sql file was a candidate and the run aborted. *)
 Lemma legacy_refuted_dir_candidate :
   exists t exts args, (forall a, In a (effective_args args) -> lookup t (a_path a) <> None) /\
                       linted_legacy t exts [] args = None.
@@ -528,12 +557,13 @@ Example written_example :
 Proof. vm_compute. split; reflexivity. Qed.
 
 Example gi_glob_pattern_nonvacuous :
-  In {| p_neg := false; p_dir := false; p_comps := [CDStar; CGlob [GStar; GLit 46; GLit 104; GLit 113; GLit 108]] |} (parse_lines readme_lines) /\
+  parse_lines readme_lines = [] ++ {| p_neg := false; p_dir := false; p_comps := [CDStar; CGlob [GStar; GLit 46; GLit 104; GLit 113; GLit 108]] |} :: [dir_pat n_temp] /\
+  no_neg [dir_pat n_temp] = true /\
   cmatch [GStar; GLit 46; GLit 104; GLit 113; GLit 108] n_xhql = true /\
   gi_ignored (parse_lines readme_lines) ([n_sub] ++ [n_xhql]) false = true.
 Proof. vm_compute. repeat split; auto. Qed.
 
-(** negation: the closest decision wins, so a later "!keep" line re-includes a file *)
+(** negation: last match wins at one level, so a later "!a.sql" line re-includes that file *)
 Example negation_example :
   let ps := parse_lines [[42;46;115;113;108]; [33;97;46;115;113;108]] (* "*.sql", "!a.sql" *) in
   gi_ignored ps [n_asql] false = false /\ gi_ignored ps [n_bsql] false = true /\ no_neg ps = false.
